@@ -425,7 +425,7 @@ func runFrames(r *ev.Report, a rune, n int) {
 func main() {
 	r := ev.New("C01", "exploration",
 		"atoms: every C0/DEL/C1 code point except newline (quick: NUL,BEL,BS,TAB,ESC,DEL,CSI,OSC), each followed by the tell-tale '[7m'; 32 markup carriers (HTML text/attributes/pre/code/unknown tag, Markdown text/destination/title/code/autolink/alt/raw HTML, gemtext, plain text) x 7 encodings "+
-			"(raw, decimal/hex/zero-padded/semicolon-less references, double-encoded, named) through Markup.Render, Post.String/Preview, Actor.String/Preview; every string field of actors, posts, activities and their nested links, authors and collections as string, list, object, hostile key and entity-in-plain-field; "+
+			"(raw, decimal/hex/zero-padded/semicolon-less references, double-encoded, named) through Markup.Render, Post.String/Preview, Actor.String/Preview; every string field of actors, posts, activities and their nested links (with a name and without one, so that the address itself is displayed), authors and collections as string, list, object, hostile key, entity-in-plain-field and percent-encoded inside a URL (host; path, query and fragment); "+
 			"13 positions in raw HTTP responses (status line, Content-Type, Location, body, header name) x start/middle/end through pub.New's failure item; UI frames (normal, selection, opening, problem, command footers) for worlds carrying the atoms; widths {1,2,7,80,81}; "+
 			"distinct_nontrivial = (carrier, atom, encoding) triples")
 	palette = oracle.Palette{Colors: []string{config.Parsed.Style.Colors.Primary, config.Parsed.Style.Colors.Error, config.Parsed.Style.Colors.Highlight, config.Parsed.Style.Colors.Code}}
